@@ -244,14 +244,19 @@ def standin(tier: str, seed: int) -> dict:
         "from gallia.services.uds.core import service as S\n"
         "out = {}\n"
         "async def go():\n"
-        "    for sd in (1, 7, 42):\n"
-        "        srv = sv.RandomUDSServer(sd); await srv.setup()\n"
+        "    dense = sv.RandomUDSServer.RandomnessParameters(p_service=1.0, p_identifier=0.5,"
+        " p_sub_function=0.5)\n"
+        "    for sd, prm in ((1, None), (7, None), (42, None), (1, dense), (7, dense)):\n"
+        "        srv = sv.RandomUDSServer(sd, prm); await srv.setup()\n"
         "        ans = []\n"
-        "        for raw in ('1001','1003','22f186','2e123401','3101ff00','1101','190201','3e00',"
-        "'2f12340300','14ffffff'):\n"
+        "        reqs = ['1001','1003','22f186','2e123401','3101ff00','1101','190201','3e00',"
+        "'2f12340300','14ffffff','1902ff','190aff']\n"
+        "        reqs += ['22%04x' % d for d in range(0, 24)] + ['2e%04xaa' % d for d in range(0, 12)]\n"
+        "        reqs += ['3101%04x' % d for d in range(0, 12)] + ['2f%04x00' % d for d in range(0, 8)]\n"
+        "        for raw in reqs:\n"
         "            r = await srv.respond(S.UDSRequest.parse_dynamic(bytes.fromhex(raw)))\n"
         "            ans.append(None if r is None else r.pdu.hex())\n"
-        "        out[sd] = [sorted((k, sorted((int(a), b) for a, b in v.items())) for k, v in "
+        "        out[str(sd) + ('d' if prm else '')] = [sorted((k, sorted((int(a), b) for a, b in v.items())) for k, v in "
         "srv.services.items()), ans]\n"
         "asyncio.run(go()); print(json.dumps(out, sort_keys=True))\n")
     outs = []
